@@ -64,6 +64,21 @@ def obligations(ctx, pid):
     scope_funcs = specified | touched
     classes = {P.functions[q].cls.qualname for q in scope_funcs if q in P.functions and P.functions[q].cls is not None}
     obs = []
+    # attribute names the specified functions of this property read (attribute access / hasattr / getattr)
+    read_names0 = set()
+    for q in specified:
+        fi0 = P.functions.get(q)
+        if fi0 is None:
+            continue
+        for n in ast.walk(fi0.node):
+            if isinstance(n, ast.Attribute) and isinstance(n.ctx, ast.Load):
+                read_names0.add(n.attr)
+            elif isinstance(n, ast.Call) and isinstance(n.func, ast.Name) and n.func.id in ("getattr", "hasattr") and len(n.args) >= 2 \
+                    and isinstance(n.args[1], ast.Constant) and isinstance(n.args[1].value, str):
+                read_names0.add(n.args[1].value)
+            elif isinstance(n, ast.Call) and dotted(n.func) in ("operator.attrgetter", "operator.methodcaller") and n.args \
+                    and isinstance(n.args[0], ast.Constant) and isinstance(n.args[0].value, str):
+                read_names0.update(n.args[0].value.split("."))
     # ---- overrides of specified methods that no reference covers
     n_checked = 0
     for q in sorted(specified):
@@ -122,6 +137,9 @@ def obligations(ctx, pid):
             elif isinstance(n, ast.Call) and isinstance(n.func, ast.Name) and n.func.id in ("getattr", "hasattr") and len(n.args) >= 2 \
                     and isinstance(n.args[1], ast.Constant) and isinstance(n.args[1].value, str):
                 read_names.add(n.args[1].value)
+            elif isinstance(n, ast.Call) and dotted(n.func) in ("operator.attrgetter", "operator.methodcaller") and n.args \
+                    and isinstance(n.args[0], ast.Constant) and isinstance(n.args[0].value, str):
+                read_names.update(n.args[0].value.split("."))
     declared = {}
     for rm in K.ref_modules:
         for cname, fields in rm.class_fields.items():
@@ -247,7 +265,7 @@ def obligations(ctx, pid):
         defined = {}
         for n in ci.node.body:
             if isinstance(n, (ast.FunctionDef, ast.AsyncFunctionDef)):
-                if n.name in defined:
+                if n.name in defined and (n.name in read_names0 or (ci.qualname + "." + n.name) in specified):
                     patches.append((ci.module.relpath, n.lineno, f"second definition of {ci.qualname}.{n.name} in the class body"))
                 defined[n.name] = n
             elif isinstance(n, ast.Assign):
@@ -261,6 +279,30 @@ def obligations(ctx, pid):
                 if st.name in seen:
                     patches.append((m.relpath, st.lineno, f"second definition of {m.name}.{st.name}"))
                 seen[st.name] = st
+    fam_classes = set(classes)
+    for cq in list(classes):
+        fam_classes |= {c.qualname for c in P.mro(P.classes[cq])} | {c.qualname for c in P.subclasses(P.classes[cq])}
+    scope_mods = {P.functions[q].module.relpath for q in scope_funcs if q in P.functions}
+    specified_names = {q for q in specified}
+
+    def in_scope(rel, what):
+        # a patch / duplicate matters for this property if it names a class of its family, a specified function, or sits in a
+        # module that holds specified functions and patches something of the package by name
+        return any(c in what for c in fam_classes) or any(q in what for q in specified_names) or \
+            (rel in scope_mods and ("setattr(" in what or "second definition of" in what and any(what.split()[-1].startswith(m) for m in ())))
+    patches = [(rel, line, what) for rel, line, what in patches if in_scope(rel, what)]
+    # ---- a method / property that shadows an attribute the constructors store on the instance
+    for cq in sorted(fam_classes):
+        ci = P.classes[cq]
+        stored = set()
+        for c in P.mro(ci) + P.subclasses(ci):
+            for m in c.methods.values():
+                for n in ast.walk(m.node):
+                    if isinstance(n, ast.Attribute) and isinstance(n.ctx, ast.Store) and isinstance(n.value, ast.Name) and n.value.id in ("self", "arr", "negated", "inner"):
+                        stored.add(n.attr)
+        for name, m in ci.methods.items():
+            if name in stored and name in read_names0:
+                patches.append((m.file, m.node.lineno, f"{m.qualname} is a class-level member with the name of an attribute the constructors store on instances ({name}): it shadows / intercepts that state"))
     for rel, line, what in patches:
         obs.append(Ob(f"E0.patch:{what}", "E0.patching", f"{rel}:{line}", "violation",
                       f"import-time patching: {what}; the function bodies analysed are not the behaviour that runs", key=f"E0.patch:{what}"))
